@@ -198,9 +198,15 @@ class DebugInfo:
                 # nothing inside the block has any code: the marker at
                 # the start of its inside tells the code of the start
                 # statement from the code of the end statement.
+                # (only the block's own markers: the marker of the
+                # enclosing block, or of a block that ends where this
+                # one starts, may sit at this block's start offset)
                 marked = False
-                for addr in sorted(set(self.empty_blocks)):
-                    if start_offset <= addr < end_offset:
+                own_markers = sorted(set(
+                    addr for addr, owner in self.empty_blocks
+                    if owner is block))
+                for addr in own_markers:
+                    if start_offset <= addr <= end_offset:
                         add_node_record(block.start_stmt,
                                         start_offset,
                                         addr)
@@ -309,7 +315,10 @@ class DebugInfoCollector:
         self._nodes.append((node, start_offset, code_offset))
 
     def mark_empty_block(self, code_offset):
-        self._empty_blocks.append(code_offset)
+        # remember which node the marker is inside of: offsets alone
+        # cannot tell the markers of adjacent or nested blocks apart
+        owner = self._stack[-1][0] if self._stack else None
+        self._empty_blocks.append((code_offset, owner))
 
     def get_debug_info(self):
         global_consts = eval_consts(self._global_consts)
